@@ -67,7 +67,8 @@ Section Hloc.
     match part_flat total p with Ok l => l | Err _ => [] end.
   Lemma part_flat_ok total p : part_flat total p = Ok (pflat total p).
   Proof.
-    unfold pflat. destruct p as [z|a b|l]; reflexivity.
+    unfold pflat. destruct p as [z|a b|l|a b k]; try reflexivity.
+    cbn [part_flat]. destruct (positions (mk_slice a b (Some k)) total); reflexivity.
   Qed.
 
   Lemma res_concat_ok : forall total ps,
@@ -154,7 +155,7 @@ Section Hloc.
 
   Lemma select_kids_in : forall (ks : list level) p k, In k (select_kids ks p) -> In k ks.
   Proof.
-    intros ks p k H. destruct p as [z|a b|zs]; cbn [select_kids] in H.
+    intros ks p k H. destruct p as [z|a b|zs|a b st]; cbn [select_kids] in H; [| | |destruct H].
     - unfold nth_kid in H. destruct (z <? 0); [destruct H|].
       destruct (nth_error ks (Z.to_nat z)) eqn:E; [|destruct H].
       destruct H as [<-|[]]. eapply nth_error_In, E.
@@ -168,7 +169,7 @@ Section Hloc.
   Notation locmap := (M_locmap A eqb).
   Notation spick := (S_pick A eqb).
 
-  Definition not_mask (s : sel) : Prop := match s with SMask _ => False | _ => True end.
+  Definition not_mask (s : sel) : Prop := match s with SMask _ | SStep _ _ _ => False | _ => True end.
 
   Lemma flat_map_map {X Y W} (g : X -> Y) (f : Y -> list W) l : flat_map f (map g l) = flat_map (fun x => f (g x)) l.
   Proof. induction l as [|x l IH]; [reflexivity|]. cbn. rewrite IH. reflexivity. Qed.
@@ -192,7 +193,7 @@ Section Hloc.
     intros ls ks s b Hlen Hnm.
     assert (ALL : select_kids ks (PSlice None None) = pick_kids ks (seq 0 (length ls))).
     { cbn [select_kids]. apply slice_kids. left. lia. }
-    destruct s as [|l|want|a c|bs]; [| | | |destruct Hnm].
+    destruct s as [|l|want|a c|bs|a c k]; [| | | |destruct Hnm|destruct Hnm].
     - cbn. exists (seq 0 (length ls)). split; [reflexivity|exact ALL].
     - cbn [M_locmap S_pick]. destruct (idx l ls) as [i|] eqn:E.
       + exists [i]. split; [reflexivity|]. cbn [select_kids]. rewrite nth_kid_nat.
@@ -238,6 +239,75 @@ Section Hloc.
   Lemma Mpos_one total p : Mpos total [Some p] = Ok (pflat total p).
   Proof. unfold Mpos. cbn. rewrite app_nil_r. reflexivity. Qed.
 
+  (* ---- stepped label slices at a leaf *)
+  Lemma positions_step_up s e k total : 0 < k -> 0 <= s <= total -> 0 <= e <= total ->
+    positions (mk_slice (Some s) (Some e) (Some k)) total =
+    Some (range_list s k (Z.to_nat (if s <? e then (e - s - 1) / k + 1 else 0))).
+  Proof.
+    intros Hk Hs He. unfold positions, slice_indices. cbn [s_step s_start s_stop].
+    assert (K0 : (k =? 0) = false) by lia. assert (K1 : (k <? 0) = false) by lia.
+    rewrite K0. unfold adj_bound. rewrite K1.
+    destruct (s <? 0) eqn:E1; [lia|]. destruct (e <? 0) eqn:E2; [lia|].
+    assert (Ea : (if s >=? total then total else s) = s) by (destruct (s >=? total) eqn:E; lia).
+    assert (Eb : (if e >=? total then total else e) = e) by (destruct (e >=? total) eqn:E; lia).
+    rewrite Ea, Eb. unfold range_len. rewrite K1. reflexivity.
+  Qed.
+
+  Lemma positions_step_down s e k total : k < 0 -> 0 <= s < total -> -1 <= e < total ->
+    positions (mk_slice (Some s) (if e <? 0 then None else Some e) (Some k)) total =
+    Some (range_list s k (Z.to_nat (if e <? s then (s - e - 1) / (- k) + 1 else 0))).
+  Proof.
+    intros Hk Hs He. unfold positions, slice_indices. cbn [s_step s_start].
+    assert (K0 : (k =? 0) = false) by lia. assert (K1 : (k <? 0) = true) by lia.
+    rewrite K0.
+    assert (ES : adj_bound (Some s) total k true = s).
+    { unfold adj_bound. destruct (s <? 0) eqn:E1; [lia|]. destruct (s >=? total) eqn:E3; [lia|reflexivity]. }
+    assert (EE : adj_bound (s_stop (mk_slice (Some s) (if e <? 0 then None else Some e) (Some k))) total k false = e).
+    { cbn [s_stop]. destruct (e <? 0) eqn:E2; unfold adj_bound; rewrite ?K1, ?E2; [lia|].
+      destruct (e >=? total) eqn:E4; lia. }
+    rewrite EE, ES. unfold range_len. rewrite K1. reflexivity.
+  Qed.
+
+  Lemma step_list (b i k : Z) (cnt : nat) : (forall t, (t < cnt)%nat -> 0 <= i + Z.of_nat t * k) ->
+    range_list (i + b) k cnt = map (fun t => b + Z.of_nat t) (step_idx i k cnt).
+  Proof.
+    intro H. unfold range_list, step_idx. rewrite map_map. apply map_ext_in. intros t Ht.
+    apply in_seq in Ht. rewrite Z2Nat.id by (apply H; lia). lia.
+  Qed.
+
+  Lemma Mpos_step total a c k ps : positions (mk_slice a c (Some k)) total = Some ps ->
+    Mpos total [Some (PStep a c k)] = Ok ps.
+  Proof. intro H. rewrite Mpos_one. unfold pflat. cbn [part_flat]. rewrite H. reflexivity. Qed.
+
+  Lemma step_up_ok total b n i j k s e : 0 < k -> 0 <= b -> b + n <= total -> 0 <= i <= n -> -1 <= j < n ->
+    s = i + b -> e = j + b + 1 ->
+    Mpos total [Some (PStep (Some s) (Some e) k)]
+    = Ok (map (fun t => b + Z.of_nat t) (step_idx i k (if i <=? j then Z.to_nat ((j - i) / k + 1) else O))).
+  Proof.
+    intros Hk Hb Ht Hi Hj -> ->. apply Mpos_step. rewrite positions_step_up by lia. f_equal.
+    replace (j + b + 1 - (i + b) - 1) with (j - i) by lia.
+    assert (C : Z.to_nat (if i + b <? j + b + 1 then (j - i) / k + 1 else 0)
+                = (if i <=? j then Z.to_nat ((j - i) / k + 1) else O)).
+    { destruct (i <=? j) eqn:E1; destruct (i + b <? j + b + 1) eqn:E2; try lia; reflexivity. }
+    rewrite C. apply step_list. intros t _. nia.
+  Qed.
+
+  Lemma step_down_ok total b n i j k : k < 0 -> 0 <= b -> b + n <= total -> 0 <= i < n -> 0 <= j < n ->
+    Mpos total [Some (PStep (Some (i + b)) (if j + b - 1 <? 0 then None else Some (j + b - 1)) k)]
+    = Ok (map (fun t => b + Z.of_nat t) (step_idx i k (if j <=? i then Z.to_nat ((i - j) / (- k) + 1) else O))).
+  Proof.
+    intros Hk Hb Ht Hi Hj. apply Mpos_step. rewrite (positions_step_down (i + b) (j + b - 1) k total) by lia. f_equal.
+    replace (i + b - (j + b - 1) - 1) with (i - j) by lia.
+    assert (C : Z.to_nat (if j + b - 1 <? i + b then (i - j) / (- k) + 1 else 0)
+                = (if j <=? i then Z.to_nat ((i - j) / (- k) + 1) else O)).
+    { destruct (j <=? i) eqn:E1; destruct (j + b - 1 <? i + b) eqn:E2; try lia; reflexivity. }
+    rewrite C. apply step_list. intros t Ht'.
+    destruct (j <=? i) eqn:E1; [|lia].
+    pose proof (Z.mul_div_le (i - j) (- k) ltac:(lia)) as D.
+    assert (0 <= (i - j) / (- k)) by (apply Z.div_pos; lia).
+    assert (Z.of_nat t <= (i - j) / (- k)) by lia. nia.
+  Qed.
+
   Lemma leaf_pick : forall (ls : list A) (s : sel) (b total : Z),
     0 <= b -> b + zlen ls <= total ->
     sel_guard A true (Z.to_nat total) s = true ->
@@ -248,7 +318,7 @@ Section Hloc.
     assert (ALL : Mpos total [Some (PSlice (Some b) (Some (Z.of_nat (length ls) + b)))]
                   = Ok (map (fun i => b + Z.of_nat i) (seq 0 (length ls)))).
     { rewrite Mpos_one, pflat_slice by lia. rewrite map_seq_zrange. f_equal. f_equal; lia. }
-    destruct s as [|l|want|a c|bs]; unfold leaf_out, mask_window.
+    destruct s as [|l|want|a c|bs|a c k]; unfold leaf_out, mask_window.
     - cbn [M_locmap S_pick]. unfold zlen. exact ALL.
     - cbn [M_locmap S_pick]. destruct (idx l ls) as [i|] eqn:E.
       + rewrite Mpos_one. cbn. f_equal. f_equal. lia.
@@ -275,6 +345,28 @@ Section Hloc.
       rewrite (filter_ext_in _ (fun i => nth (Z.to_nat (b + Z.of_nat i)) bs false)).
       + apply map_ext. intro i. lia.
       + intros i Hi. apply in_seq in Hi. rewrite nth_firstn_lt by lia. rewrite nth_skipn'. f_equal. lia.
+    - cbn [sel_guard andb] in Hg. apply andb_true_iff in Hg as [Hk0 Hg]. apply negb_true_iff in Hk0.
+      cbn [M_locmap S_pick negb]. rewrite Hk0. unfold zlen.
+      destruct (0 <? k) eqn:Kp.
+      + (* walking up: open ends are this leaf's first / last label *)
+        destruct a as [x|], c as [y|]; cbn [slice_bound].
+        * destruct (idx x ls) as [i|] eqn:Ex; [|reflexivity].
+          destruct (idx y ls) as [j|] eqn:Ey; [|reflexivity].
+          cbn [option_map]. destruct (idx_some _ _ _ Ex) as [_ Hi]. destruct (idx_some _ _ _ Ey) as [_ Hj].
+          apply (step_up_ok total b (Z.of_nat (length ls))); lia.
+        * destruct (idx x ls) as [i|] eqn:Ex; [|reflexivity].
+          cbn [option_map]. destruct (idx_some _ _ _ Ex) as [_ Hi].
+          apply (step_up_ok total b (Z.of_nat (length ls))); lia.
+        * destruct (idx y ls) as [j|] eqn:Ey; [|reflexivity].
+          cbn [option_map]. destruct (idx_some _ _ _ Ey) as [_ Hj].
+          apply (step_up_ok total b (Z.of_nat (length ls))); lia.
+        * apply (step_up_ok total b (Z.of_nat (length ls))); lia.
+      + (* walking down: closed slices only (guard) *)
+        cbn [orb] in Hg. destruct a as [x|], c as [y|]; try discriminate. cbn [slice_bound].
+        destruct (idx x ls) as [i|] eqn:Ex; [|reflexivity].
+        destruct (idx y ls) as [j|] eqn:Ey; [|reflexivity].
+        cbn [option_map]. destruct (idx_some _ _ _ Ex) as [_ Hi]. destruct (idx_some _ _ _ Ey) as [_ Hj].
+        apply (step_down_ok total b (Z.of_nat (length ls))); lia.
   Qed.
 
   (* ---- the flat rows of a node, grouped back into its children *)
@@ -417,7 +509,7 @@ Section Hloc.
     | Err e => if String.eqb e "KeyError" then ([], []) else ([None], [])
     end.
   Proof.
-    intro H. unfold hloc_step. cbn [fst snd lv_off]. destruct (sel_at key d); try reflexivity. destruct H.
+    intro H. unfold hloc_step. cbn [fst snd lv_off]. destruct (sel_at key d); try reflexivity; destruct H.
   Qed.
 
   Lemma sub_exact : forall (t : level) h,
@@ -439,7 +531,7 @@ Section Hloc.
       assert (Hnm : not_mask (sel_at key d)).
       { specialize (Hg d ltac:(lia)). replace (Nat.eqb (S d) (d + S (S h'))) with false in Hg
           by (symmetry; apply Nat.eqb_neq; lia).
-        destruct (sel_at key d); try exact I. cbn in Hg. discriminate. }
+        destruct (sel_at key d); try exact I; cbn in Hg; discriminate. }
       cbn [dfs]. rewrite (node_step o ls ks d off Hnm). rewrite flatten_node.
       change (S_select A eqb (S (S h')) (fz A ks ls) (off + o) key d) with
         (let gs := gruns (fz A ks ls) in
@@ -505,8 +597,9 @@ Section Hloc.
     (exists p, hstep (Node o ls ks, d, off) = ([], map (fun k => (k, S d, off + o)) (select_kids ks p))) \/
     hstep (Node o ls ks, d, off) = ([], []) \/ hstep (Node o ls ks, d, off) = ([None], []).
   Proof.
-    destruct (sel_at key d) as [|l|want|a c|bs] eqn:E.
+    destruct (sel_at key d) as [|l|want|a c|bs|a c k] eqn:E.
     5:{ right. right. eapply mask_step, E. }
+    5:{ right. right. unfold hloc_step. cbn [fst snd lv_off]. rewrite E. reflexivity. }
     all: rewrite node_step by (rewrite E; exact I);
       destruct (locmap ls (sel_at key d) None) as [p|e];
       [left; exists p; reflexivity|destruct (String.eqb e "KeyError"); [right; left|right; right]; reflexivity].
@@ -657,7 +750,7 @@ Section Hloc.
   Proof.
     intros t h total ps Hu Hlen HM Hne. pose proof (Mpos_ok_nonempty _ _ _ HM Hne) as Hs.
     rewrite forallb_negb_existsb. destruct (existsb (@sel_multiple A) key) eqn:EM.
-    - rewrite andb_false_r. destruct (somes (hdfs h (t, O, 0))) as [|[z|a c|l] [|q r]]; reflexivity.
+    - rewrite andb_false_r. destruct (somes (hdfs h (t, O, 0))) as [|[z|a c|l|a c st] [|q r]]; reflexivity.
     - cbn [negb]. rewrite andb_true_r. destruct (Nat.eqb (length key) (S h)) eqn:EL.
       + apply Nat.eqb_eq in EL.
         destruct (all_one_single t h O 0 Hu) as [E|[z E]].
@@ -671,7 +764,7 @@ Section Hloc.
       + apply Nat.eqb_neq in EL.
         assert (SA : sel_at key (0 + h) = SAll) by (unfold sel_at; apply nth_overflow; lia).
         pose proof (leaf_all_slices t h O 0 Hu SA) as F.
-        destruct (somes (hdfs h (t, O, 0))) as [|[z|a c|l] [|q r]]; try reflexivity.
+        destruct (somes (hdfs h (t, O, 0))) as [|[z|a c|l|a c st] [|q r]]; try reflexivity.
         inversion F as [|? ? F1 _]; subst. destruct F1.
   Qed.
 
